@@ -157,10 +157,15 @@ CLAIMS = {
 ADDED = {
     'C01': ' Also (D6-D8): cr/dr moves ignore ModRM.mod and segment-register numbers 6/7 are rejected; memory-only operands reject mod=3; the [esi] operand of the string instructions '
            'takes the segment-override prefix and [edi] stays in es (special_opcodes evaluated on family x prefix). D1 also demands that a mandatory prefix under which the reference defines no '
-           'instruction for an SSE opcode is rejected by the decoder (andss, movasd, SSE4 without 66).',
+           'instruction for an SSE opcode is rejected by the decoder (andss, movasd, SSE4 without 66); the r/m operand size of every integer unit is evaluated from the size statements of _dis for '
+           'the memory and the register form separately (mov Sreg / sldt / lar: m16, r16/32). D10: operand-less instructions named by their operand size take the 16-bit name under 0x66 '
+           '(special_opcodes evaluated).',
     'C02': ' Also (D5-D8): the reverse ModRM table has an empty reg field, decodes back and is complete; displacements outside the brackets are accumulated; multi-immediate rows are '
-           'encoded in the order they are decoded; every predicate by which _dis rejects an (opcode, mandatory prefix) pair is applied to the assembler\'s candidates.',
-    'C03': ' Also (D5): for movs/cmps/lods a segment override is printed (operand elision of __str__ evaluated) and turned back into the prefix by normalize_args (evaluated).',
+           'encoded in the order they are decoded; every predicate by which _dis rejects an (opcode, mandatory prefix) pair is applied to the assembler\'s candidates; a register the table fixes (dx of in/out) does not select '
+           'the operand size (detection loop evaluated).',
+    'C03': ' Also (D5): for movs/cmps/lods a segment override is printed (operand elision of __str__ evaluated) and turned back into the prefix by normalize_args (evaluated). D7: every '
+           'mnemonic list by which _dis rejects or sizes an operand form is consulted by the same branch of the assembler; D8: x87 st(i) rows pass check_size_modif (evaluated) with the size '
+           'the parser gives st(i) and agree with the implicit-operand lists; D3: every renamed row copy the decoder uses is a name the assembler finds.',
     'C05': ' Also (D4/D5): rewrites are selected by their action; constant folding demands equal widths of associative operands only; every tab_size_int[K] lookup of the simplifier is '
            'dominated by a membership test, by an isinstance(.., ExprInt) on the value or an operand of it, or ranges over the table keys (no KeyError on 4/24/31-bit slices).',
     'C06': ' Also: operators the lifter builds with operands of different widths and evaluable operands are exempt from the operand-type check (op_size_no_check names only real operators); '
@@ -169,10 +174,12 @@ ADDED = {
     'C07': ' Also (D5/D7): every exit of the rep loop is count==0 or the zf test, a symbolic zf is rejected; a value (pool content, evaluation result, stored address) is never passed to '
            'eval_expr again (source-order taint with parameters propagated through the self-call graph).',
     'C08': ' Also (D4): lds/les/lss read the selector operand-size/8 bytes after the offset.',
-    'C09': ' Also (D6): a string instruction whose Intel name is an SSE mnemonic (movsd/cmpsd) is not rendered under that name in AT&T syntax.',
+    'C09': ' Also (D6): a string instruction whose Intel name is an SSE mnemonic (movsd/cmpsd) is not rendered under that name in AT&T syntax. D8: operand order (reversed except bound/enter) '
+           'agrees between the AT&T branch of __str__ and mnemo_from_att, both evaluated; D9: memory forms rendered under a suffix-less AT&T mnemonic pass the size check of their row after '
+           'mnemo_from_att, normalize_args and the operand completion of asm_candidates (all evaluated).',
     'C10': ' Also (D4/D5): a decode that finds no instruction restores the stream offset; mnemo_from_att, evaluated on every mnemonic-like name (Intel names, AT&T table entries, +/- suffix '
            'letters) x operand shape, returns or raises ValueError; constant operand indices of __str__ are reachable only with enough operands (string-instruction operand counts and '
-           'row-dependent guards evaluated).',
+           'row-dependent guards evaluated); dictionary displays subscripted in the assembler have table-derived keys that are always present, or a membership test.',
     'C12': ' Also (D2/D6): every method of the evaluator class counts as an entry point whose defaults callers omit (dict-dispatch callees resolved); sys.path / sys.modules replaced inside a '
            'function are restored in a finally.',
     'C14': ' The template family includes the bounded left shift (count >= width of the result class gives 0; a bound taken from a narrower class is a violation) and the modular power '
